@@ -98,7 +98,7 @@ Definition protect_via_dc (getkey : bytes -> option bytes -> res envelope) (cach
   | Raise e => (Raise e, cache)
   | Ok sd =>
     match protection_gke_from_cache c cache rkid sd time_ns with
-    | Raise e => (Raise e, cache)
+    | Raise e => (Raise e, protection_lookup_cache c cache rkid sd time_ns)
     | Ok (o, cache1) =>
       match (match o with Some rk => Ok rk | None => getkey sd rkid end) with
       | Raise e => (Raise e, cache1)
